@@ -1,0 +1,36 @@
+//go:build verif
+
+package packet
+
+import (
+	"sync/atomic"
+	"time"
+)
+
+// Verification hooks - only compiled with the "verif" build tag.
+
+// VerifYield, when set, is called at the yield points placed between critical sections.
+var VerifYield atomic.Pointer[func(point string)]
+
+func verifYield(point string) {
+	if f := VerifYield.Load(); f != nil {
+		(*f)(point)
+	}
+}
+
+// VerifPurge runs the time-parameterised purge exactly as the minute ticker does.
+func (h *Session) VerifPurge(now time.Time) error {
+	return h.purge(now)
+}
+
+// VerifICMPWaiters returns the number of pending ping waiters.
+func VerifICMPWaiters() int {
+	icmpTable.Lock()
+	defer icmpTable.Unlock()
+	return len(icmpTable.table)
+}
+
+// VerifYieldPoint lets handler packages share the session yield hook.
+func VerifYieldPoint(point string) {
+	verifYield(point)
+}
